@@ -159,9 +159,14 @@ class Undefined(Exception):
     pass
 
 
+E_AS_EXACT = [False]     # self-test: read the double nearest to e as the number e ("the default base denotes e")
+
+
 def mp_term(t, val):
     """evaluate a z3 real/int term at val: dict z3-const-name -> mpmath number (50 digits)"""
     if z3.is_rational_value(t):
+        if E_AS_EXACT[0] and t.numerator_as_long() == sx.E_FLOAT.numerator and t.denominator_as_long() == sx.E_FLOAT.denominator:
+            return +mpmath.e
         return mpmath.mpf(t.numerator_as_long()) / mpmath.mpf(t.denominator_as_long())
     if z3.is_int_value(t):
         return mpmath.mpf(t.as_long())
